@@ -388,7 +388,11 @@ func c15Termination(c *Ctx) {
 		}
 		c.check(n == 1, rule, fname+"/"+method+"-site", w.pos(f.Pos()), "one removal site under method == "+method, fmt.Sprintf("expected exactly one RemoveDialog under method == %q in %s, found %d: the pin is not dissolved on termination", method, fname, n))
 	}
-	check("(*Proxy).handleDialog", 3, "BYE", func(f *ssa.Function, rm ssa.CallInstruction) (bool, string) {
+	hdMsg := 3
+	if hf := w.Fn("(*Proxy).handleDialog"); hf != nil {
+		hdMsg = msgParamIndex(hf, 3)
+	}
+	check("(*Proxy).handleDialog", hdMsg, "BYE", func(f *ssa.Function, rm ssa.CallInstruction) (bool, string) {
 		// on the BYE arm with a non-empty dialog the removal always happens
 		gd := w.resultOfCallTo(callArg(rm, 0), "(*Message).GetDialog", 0)
 		if gd == nil {
